@@ -91,7 +91,7 @@ def main():
     else:
         todo = [t for t in todo if not os.path.exists(os.path.join(VERIF, "seeded", t[0], "meta.json"))]
     os.makedirs("/tmp/seedchk", exist_ok=True)
-    with ThreadPoolExecutor(max_workers=4) as ex:
+    with ThreadPoolExecutor(max_workers=int(os.environ.get("PCV_SEED_WORKERS", "4"))) as ex:
         futs = {ex.submit(confirm, *t): t for t in todo}
         for f in futs:
             name, src, patch = futs[f]
